@@ -68,3 +68,34 @@ print('#define GR_DISPATCH(sel, rule, len, res) switch (sel) { \\')
 for i, (n, ln, call, comment) in enumerate(disp):
     print('  case %d: rule = %d; len = %d; %s; break; /* %s */ \\' % (i, n, ln, call, comment))
 print('  default: break; }')
+
+# ---- positions of MATH tokens: the user code of the generated lexer (rslang/header/MathLexerImpl.hpp, the compiled file) ----
+# Range() and the action of the newline rule are turned into C expressions / one C statement by textual rules:
+#   static_cast<StrPos>(E) -> ((int)(E));  columno() / columns() / lineno() -> lx_columno() ...;  matcher().first() / .last() -> lx_first() / lx_last()
+# Anything else than these calls, `lineBase`, integer literals and + - ( ) = ; aborts.
+def lx_c(e):
+    e = re.sub(r'static_cast<\s*StrPos\s*>\s*\(', '((int)(', e)
+    # every static_cast opened one extra parenthesis: close it after the matching one
+    out = ''; depth = []; i = 0
+    while i < len(e):
+        if e.startswith('((int)(', i): out += '((int)('; depth.append(1); i += 7; continue
+        c = e[i]
+        if c == '(' and depth: depth[-1] += 1
+        if c == ')' and depth:
+            depth[-1] -= 1
+            if depth[-1] == 0: out += '))'; depth.pop(); i += 1; continue
+        out += c; i += 1
+    e = out
+    e = re.sub(r'matcher\(\)\s*\.\s*first\(\)', 'lx_first()', e); e = re.sub(r'matcher\(\)\s*\.\s*last\(\)', 'lx_last()', e)
+    e = re.sub(r'\b(columno|columns|lineno)\(\)', r'lx_\1()', e)
+    rest = re.sub(r'lx_(first|last|columno|columns|lineno)\(\)|\(int\)|\blineBase\b|\b\d+\b|[\s\+\-\(\)=;]', '', e)
+    if rest: sys.stderr.write('pregen C06: lexer user code outside the translated subset: %r in %r\n' % (rest, e)); sys.exit(2)
+    return e
+hpp = open(repo + '/ccl/rslang/header/MathLexerImpl.hpp').read()
+mr = re.search(r'StrRange\s+Range\(\)\s*const\s*\{\s*return\s+StrRange\s*\{(.*?),\s*\n(.*?)\n\s*\};\s*\}', hpp, re.S)
+mn = re.search(r'case \d+: // rule MathLexerImpl\.l:\d+: \\n :\s*\n\{(.*?)\}\s*\n\s*break;', hpp, re.S)
+if not mr or not mn: sys.stderr.write('pregen C06: Range() or the newline rule of MathLexerImpl.hpp not found\n'); sys.exit(2)
+print('/* generated from MathLexerImpl.hpp: Range() and the action of the newline rule */')
+print('#define LX_RANGE_START (%s)' % lx_c(' '.join(mr.group(1).split())))
+print('#define LX_RANGE_FINISH (%s)' % lx_c(' '.join(mr.group(2).split())))
+print('#define LX_ON_NEWLINE do { %s } while (0)' % lx_c(' '.join(mn.group(1).split())))
